@@ -42,6 +42,11 @@ def lex_replay(o):
             "note": "real ExperimentLexer.tokenize vs the documented scanner (spec/lex_ref.py) on the witness text"}
 
 
+def lex_replay_search(o):
+    from vcore.links_sly import _lex_replay
+    return _lex_replay(o)
+
+
 def link_lexer(ctx):
     fn_main = LEXFN + "ExperimentLexer"
     try:
@@ -132,6 +137,15 @@ def lexer_obls(T, ctx, tag=""):
     out.append(Obl("lex:main%s/" % tag + "config(ignore='',literals={},reflags=0,no remapping)", fn_main, "regex",
                    "the table-level escape hatches of sly (ignore chars, literals, flags, remapping) are unused",
                    status=DISCHARGED if cfg_ok else UNDECIDED, backend="table", detail=str({x: main[x] for x in ("ignore", "literals", "reflags", "remapping")}), props=allp))
+    # the regex the scanner loop actually matches with (`cls._master_re`) is the ordered alternation of the rules rxvc reads
+    for sname, st in states.items():
+        want = "|".join("(?P<%s>%s)" % (r["name"], r["pattern"]) for r in st["rules"])
+        flags_ok = "master_flags" not in st or (st["master_flags"] & ~32) == (st["reflags"] & ~32)       # 32 = re.UNICODE, implied for str patterns
+        ok = st["master"] == want and flags_ok
+        out.append(Obl("lex:%s%s/master-regex==ordered-alternation-of-the-rules" % ("main" if sname == "ExperimentLexer" else sname, tag), LEXFN + sname, "regex",
+                       "the compiled master regex the scanner loop uses is (?P<rule>pattern)|... over the rule table in order, with the class's flags",
+                       status=DISCHARGED if ok else REFUTED, backend="table", detail="" if ok else "master=%r expected=%r flags=%r/%r" % (st["master"][:300], want[:300], st.get("master_flags"), st["reflags"]),
+                       props=allp, model=None if ok else {"witness": "", "master": st["master"][:500]}, replay=lex_replay_search))
     try:
         real_rules = [Rule(r["name"], r["pattern"], r["tree"], al) for r in main["rules"]]
         RP = ctx.memo("lex_realpicks", lambda: Picks(real_rules, al))
